@@ -4,6 +4,7 @@ package flood
 import (
 	"fmt"
 	"log/slog"
+	"math"
 	"net"
 	"sync"
 	"time"
@@ -413,12 +414,23 @@ func (f *Flooder) floodAdvertisementEncrypted(
 		fwdDisplayName = ""
 	}
 
+	// The advertisement travels one more hop, so the advertised metrics grow
+	// with the path: the receiver adds one for its own hop, and a full-table
+	// replay sends the stored (already incremented) metrics.
+	fwdRoutes := make([]protocol.Route, len(routes))
+	for i, r := range routes {
+		fwdRoutes[i] = r
+		if r.Metric < math.MaxUint16 {
+			fwdRoutes[i].Metric = r.Metric + 1
+		}
+	}
+
 	// Build the advertise payload with extended path
 	adv := &protocol.RouteAdvertise{
 		OriginAgent:       originAgent,
 		OriginDisplayName: fwdDisplayName,
 		Sequence:          sequence,
-		Routes:            routes,
+		Routes:            fwdRoutes,
 		EncPath:           fwdEncPath,
 		SeenBy:            seenBy,
 	}
